@@ -274,6 +274,21 @@ impl<T: Flt> Runner<T> {
         r.trace.cursor = r.opts.start_cursor;
         r.trace.init = r.getters().0;
         r.trace.digest = 0xcbf2_9ce4_8422_2325;
+        // the allocation helpers must give buffers that last for the whole life of the instance
+        let g = r.trace.init;
+        let checks: [(&str, Vec<Vec<T>>, usize); 4] = [
+            ("input_buffer_allocate(true)", r.inst.in_alloc(true), g.in_max),
+            ("output_buffer_allocate(true)", r.inst.out_alloc(true), g.out_max),
+            ("VecResampler::input_buffer_allocate(false)", r.inst.v_in_alloc(false), g.in_max),
+            ("VecResampler::output_buffer_allocate(false)", r.inst.v_out_alloc(false), g.out_max),
+        ];
+        for (name, b, want) in checks.iter() {
+            let filled = name.contains("(true)");
+            let ok = b.len() == cfg.channels && b.iter().all(|c| if filled { c.len() == *want } else { c.is_empty() && c.capacity() >= *want });
+            if !ok {
+                r.viol("C04", "allocate-helper-size", 0, format!("{} gave {} channels of len {:?} / capacity {:?}, the max getter says {}", name, b.len(), b.first().map(|c| c.len()), b.first().map(|c| c.capacity()), want));
+            }
+        }
         Ok(r)
     }
 
@@ -476,6 +491,18 @@ impl<T: Flt> Runner<T> {
                 let _ = self.ctl_call(|i| i.set_chunk(n), &mut rec);
             }
             Op::Migrate { .. } => {}
+            Op::SetMask { mask } => {
+                // harness-side state only: the mask argument of the following calls
+                let mut m = mask.clone();
+                if let Some(v) = &mut m {
+                    v.resize(self.cfg.channels, true);
+                }
+                self.cfg.mask = m;
+                if self.cfg.mask.is_none() {
+                    self.cfg.empty_inactive = false;
+                }
+                rec.res = StepRes::CtlOk;
+            }
         }
         if let StepRes::Panic(msg) = &rec.res {
             let msg = msg.clone();
@@ -818,6 +845,8 @@ impl<T: Flt> Runner<T> {
         }
         let maskref = mask.as_deref();
         let inst = &mut *self.inst;
+        rec.rt = matches!(path, Path::IntoBuffer | Path::VecIntoBuffer);
+        alloc::arm();
         let r = catch_unwind(AssertUnwindSafe(|| -> Result<(), rubato::ResampleError> {
             match path {
                 Path::IntoBuffer => inst.pib_vec(&inbuf, &mut outbuf, maskref).map(|_| ()),
@@ -830,6 +859,7 @@ impl<T: Flt> Runner<T> {
                 Path::VecPartialWrapper => inst.v_partial_wrapper(Some(&inbuf), maskref).map(|_| ()),
             }
         }));
+        rec.allocs = alloc::disarm().0;
         rec.untouched = outbuf.iter().all(|b| b.iter().all(|s| s.is_sentinel()));
         rec.res = match r {
             Ok(Ok(())) => StepRes::Proc { n_in: 0, n_out: 0 },
